@@ -35,10 +35,10 @@ func bodySkeleton(fd *ast.FuncDecl) []string {
 
 // skel carries the names the statements seen so far have defined.
 type skel struct {
-	recv       string // receiver name
-	res, err   string // x, err := recv.MakeRequest(…)
-	resp, ok   string // resp, ok := x.(T)
-	calls      int
+	recv     string // receiver name
+	res, err string // x, err := recv.MakeRequest(…)
+	resp, ok string // resp, ok := x.(T)
+	calls    int
 }
 
 func requestCall(e ast.Expr) (*ast.CallExpr, *ast.SelectorExpr) {
